@@ -369,10 +369,12 @@ def _menus():
             lambda n=n, b=b, rw=rw, **k: E.Knapsack(
                 generator=KGen(num_items=n, total_budget=b),
                 reward_fn=KDense() if rw == "dense" else KSparse()), items=n, budget=b, reward=rw)
-    def _knapsack_quantised(n, budget):
+    def _knapsack_quantised(n, budget, denom=8):
         """Harness-side subclass of the public abstract Generator: weights are multiples of 1/8 (exactly
         representable), so items that fill the remaining budget *exactly* occur all the time - a boundary the
-        uniform RandomGenerator never produces."""
+        uniform RandomGenerator never produces.  With denom=10 the weights are decimal fractions, which are *not*
+        representable: an item whose weight equals what is left up to rounding is then the common case, so anything
+        that depends on how the remaining budget was accumulated shows."""
         import jax
         import jax.numpy as jnp
 
@@ -382,8 +384,8 @@ def _menus():
         class Quantised(Generator):
             def __call__(self, key):
                 key, k1, k2 = jax.random.split(key, 3)
-                weights = jax.random.randint(k1, (self.num_items,), 1, 9).astype(jnp.float32) / 8.0
-                values = jax.random.randint(k2, (self.num_items,), 1, 9).astype(jnp.float32) / 8.0
+                weights = jax.random.randint(k1, (self.num_items,), 1, denom + 1).astype(jnp.float32) / denom
+                values = jax.random.randint(k2, (self.num_items,), 1, denom + 1).astype(jnp.float32) / denom
                 return State(weights=weights, values=values, packed_items=jnp.zeros(self.num_items, dtype=bool),
                              remaining_budget=jnp.array(self.total_budget, float), key=key)
 
@@ -394,6 +396,11 @@ def _menus():
             lambda n=n, b=b, rw=rw, **k: E.Knapsack(generator=_knapsack_quantised(n, b),
                                                     reward_fn=KDense() if rw == "dense" else KSparse()),
             items=n, budget=b, reward=rw, gen="quantised")
+    for n, b, rw in ((12, 2.0, "dense"), (12, 2.0, "sparse")):
+        add("Knapsack", f"t{n}{rw[0]}",
+            lambda n=n, b=b, rw=rw, **k: E.Knapsack(generator=_knapsack_quantised(n, b, 10),
+                                                    reward_fn=KDense() if rw == "dense" else KSparse()),
+            items=n, budget=b, reward=rw, gen="decimal")
     for r, c, t in ((10, 10, 400), (4, 4, 3), (6, 5, 7), (5, 12, 2), (10, 10, 1), (6, 5, 400)):
         add("Tetris", f"r{r}c{c}t{t}",
             lambda r=r, c=c, t=t, time_limit=None, **k: E.Tetris(
@@ -635,7 +642,7 @@ QUICK = {
     "Game2048": ["b3", "b4"], "GraphColoring": ["n6p8", "n20p8", "n40p3", "n130p1"], "Minesweeper": ["r3c5m3", "default", "r2c2m1", "r12c12m20", "r4c4m15"],
     "RubiksCube": ["n2s1t3", "n3s7t7"], "SlidingTilePuzzle": ["g3m50t7d", "g2m1t3s", "g12m300t60d"],
     "Sudoku": ["veryeasy", "dummy", "veryeasy_u8", "near"], "BinPack": ["r10e20s2", "r5e10s1o6", "r10e30o8huge", "csvtiny_sparse"], "FlatPack": ["r2c3b", "r3c2c"],
-    "JobShop": ["j3m2o3d2", "j5m4o4d4", "j40m4o3d4", "j130m3o2d3"], "Knapsack": ["n10s", "n50d", "q8d", "n130d"], "Tetris": ["r6c5t400", "r10c10t400"],
+    "JobShop": ["j3m2o3d2", "j5m4o4d4", "j40m4o3d4", "j130m3o2d3"], "Knapsack": ["n10s", "n50d", "q8d", "t12d", "n130d"], "Tetris": ["r6c5t400", "r10c10t400"],
     "Cleaner": ["r3c7a1t7", "r5c11a2tNone", "r3c3a2tNone", "r4c6a2t12p0", "r13c13a3tNone"], "Connector": ["g5a2t7rw", "g6a3t50rw", "g5a2t12rwc20s0", "g12a48t50rw", "g6a5t30uni"],
     "CVRP": ["n5s", "n20d", "zb6d", "n130d"], "LevelBasedForaging": ["g6a2f2v2l2cVNp0t100", "g8a3f3v3l3nGRp5t100", "g7a2f3v7l2nGRp0t40", "g5a3f1v5l2nVNp0t40", "g8a3f3v5l2nVNp0t40", "g6a4f1v6l2nVNp0t40"],
     "Maze": ["r4c7tNone", "r5c5t7", "r13c13tNone"], "MMST": ["n12e18a2k3t7", "n12e18a3k2t30"], "MultiCVRP": ["c6v2d", "c6v3s"],
@@ -873,7 +880,51 @@ def _legal_hash_policy(layout, act_dtype, amin=None, amax=None):
     return pol
 
 
-DEEP_POLICIES = {"Snake": {"hamilton": _snake_hamilton}}
+def _g2048_snake(env, state, ts, i=0, salt=0):
+    """One-ply greedy 2048 player: the masked-in move whose resulting board scores best under boustrophedon
+    ("snake") position weights plus a bonus per empty cell.  On the 5x5 board about one episode in eight builds the
+    2048 tile within 1400 moves - late boards that random play never sees."""
+    import jax
+    import jax.numpy as jnp
+
+    def row_left(row):
+        r = row[jnp.argsort(row == 0, stable=True)]
+        res, k, prev, gain = jnp.zeros_like(row), 0, jnp.zeros((), row.dtype), 0.0
+        for i in range(row.shape[0]):
+            x = r[i]
+            merge = (x != 0) & (x == prev)
+            flush = (x != 0) & ~merge & (prev != 0)
+            res = jnp.where(merge, res.at[k].set(prev + 1), jnp.where(flush, res.at[k].set(prev), res))
+            gain = gain + jnp.where(merge, 2.0 ** (prev + 1), 0.0)
+            k = k + (merge | flush)
+            prev = jnp.where(merge, 0, jnp.where(x != 0, x, prev))
+        res = jnp.where(prev != 0, res.at[k].set(prev), res)
+        return res, gain
+
+    def left(bd):
+        nb, g = jax.vmap(row_left)(bd)
+        return nb, jnp.sum(g)
+
+    def turned(k):
+        def mv(bd):
+            nb, g = left(jnp.rot90(bd, k))
+            return jnp.rot90(nb, -k), g
+        return mv
+
+    n = state.board.shape[0]
+    idx = np.arange(n * n).reshape(n, n)
+    idx[1::2] = idx[1::2, ::-1]
+    w = jnp.asarray(4.0 ** (idx / 2.0), jnp.float32)
+    sc = []
+    for mv in (turned(1), turned(2), turned(3), turned(0)):   # up, right, down, left
+        nb, r = mv(state.board)
+        v = jnp.where(nb > 0, 2.0 ** nb, 0.0)
+        sc.append(jnp.sum(v * w) / jnp.sum(w) + 50.0 * jnp.sum(nb == 0) + r)
+    sc = jnp.where(ts.observation.action_mask, jnp.stack(sc), -jnp.inf)
+    return jnp.argmax(sc).astype(jnp.int32)
+
+
+DEEP_POLICIES = {"Snake": {"hamilton": _snake_hamilton}, "Game2048": {"snake": _g2048_snake}}
 
 
 def deep_policy(b, name):
